@@ -91,8 +91,8 @@ func (f FloatSchema) ValidateCompatibility(typeOrData any) error {
 		// or the max of the tested type is less than the min of the self type
 		// For more control over this, the ValidateCompatibility API would need to change to allow subset,
 		// superset, and exact verification levels.
-		if (f.MinValue != nil && floatSchemaType.MaxValue != nil && (*floatSchemaType.MinValue) > (*f.MaxValue)) ||
-			(f.MaxValue != nil && floatSchemaType.MinValue != nil && (*floatSchemaType.MaxValue) < (*f.MinValue)) {
+		if (floatSchemaType.MinValue != nil && f.MaxValue != nil && (*floatSchemaType.MinValue) > (*f.MaxValue)) ||
+			(floatSchemaType.MaxValue != nil && f.MinValue != nil && (*floatSchemaType.MaxValue) < (*f.MinValue)) {
 			return &ConstraintError{
 				Message: "mutually exclusive min/max values between float schemas",
 			}
